@@ -107,11 +107,25 @@ HexShells == {"s", "p", "d", "pz"}
 ShellAllowedIn(lat, G, shell) == IF lat = "hex" THEN shell \in HexShells /\ ShellAllowed(G, shell) ELSE ShellAllowed(G, shell)
 
 (* the class of inputs on which the symmetriser's per-orbital treatment of Wannier centres is not exact: a site whose
-   symmetry group leaves a vector invariant (the centres may move off the site) and contains an operation that mixes
-   dz2 and dx2-y2 (a signed permutation that moves the z axis), with a shell given in the d basis *)
+   symmetry group leaves a vector invariant (the centres may move off the site) and contains an operation whose orbital
+   matrix on the shell is not a signed permutation of the orbitals:
+     orthogonal lattices : an operation that mixes dz2 and dx2-y2 (a signed permutation that moves the z axis), with a
+                           shell given in the d basis
+     hexagonal cell      : an operation whose Cartesian matrix is not diagonal (rotations by 60/120 degrees, mirrors and
+                           two-fold axes that are oblique to Cartesian x, y), with a p or d shell (px, py are mixed) *)
 SiteGroup(sites, G, k) == {g \in G : VMod(VSub(Apply(g, sites[k].pos), sites[k].pos)) = ZeroV}
 PolarSite(sites, G, k) == \E v \in ((-1)..1) \X ((-1)..1) \X ((-1)..1) : v # ZeroV /\ \A g \in SiteGroup(sites, G, k) : MV(g.W, v) = v
 MixesEg(W) == W[3][3] = 0
-MixedCentreSites(sites, G) == {k \in 1..Len(sites) : PolarSite(sites, G, k) /\ \E g \in SiteGroup(sites, G, k) : MixesEg(g.W)}
 EgBasisShells == {"d", "eg"}
+(* in-plane blocks of the hexagonal operations whose Cartesian matrix is diagonal: 1, C2z, the mirrors y -> -y and x -> -x
+   (a1 along x, a2 at 120 degrees) *)
+HexCartDiag(W) == << <<W[1][1], W[1][2]>>, <<W[2][1], W[2][2]>> >> \in
+                     { << <<1, 0>>, <<0, 1>> >>, << <<-1, 0>>, <<0, -1>> >>, << <<1, -1>>, <<0, -1>> >>, << <<-1, 1>>, <<0, 1>> >> }
+HexMixedShells == {"p", "d"}
+MixesShell(lat, W, shell) == IF lat = "hex" THEN shell \in HexMixedShells /\ ~HexCartDiag(W)
+                                            ELSE shell \in EgBasisShells /\ MixesEg(W)
+MixedCentreSitesFor(lat, sites, G, shell) ==
+   {k \in 1..Len(sites) : PolarSite(sites, G, k) /\ \E g \in SiteGroup(sites, G, k) : MixesShell(lat, g.W, shell)}
+(* sites that are in the class for some shell *)
+MixedCentreSites(lat, sites, G) == MixedCentreSitesFor(lat, sites, G, IF lat = "hex" THEN "p" ELSE "d")
 =============================================================================
